@@ -248,6 +248,14 @@ def rule_g(R, ctx, rid="C06.g", only=None):
                 encs = [c for c in fn.calls() if F.strip_generics(c.name).endswith("BlockSlice::encode") and c.args
                         and mir_root(fn, c.args[0]) == slice_root and cfg.dominates(cs.bb, c.bb)]
                 R.ob(rid, fn, "trimmed-slice-encoded", len(encs) == 1, "the trimmed slice is the one encoded next: %d encode call(s) on it" % len(encs), cs.loc())
+            # the first block is trimmed whatever its kind: the trim is not confined to one variant of the block, and no other
+            # encoding of the first block exists next to the trimmed one
+            vv = FnView(fn)
+            narrowed = [l.desc for l in vv.guards(cs.bb) if isinstance(l.polarity, str) and l.polarity in ("Item", "GC", "Skip")]
+            R.ob(rid, fn, "first-block-any-kind", not narrowed,
+                 "the offset is applied to the first block whatever its kind" if not narrowed else
+                 "the offset is applied only when the first block is %s: a GC or Skip range requested from a clock inside it is written "
+                 "at full length and shifts every later id of that client" % narrowed[:1], cs.loc())
     R.floor(rid, "section writers with an offset first block", n, 1 if only else 2)
 
 
